@@ -32,9 +32,9 @@ def ent : Entry Digest := ⟨[1], [], 1, zeroD⟩
 /-- tx 1 committed; tx 2 = X precommitted, discarded, replaced by Y (other timestamp);
 close/open; tx 2 allowed (it is X again); tx 3 committed. -/
 def opsW : List (Op Digest) :=
-  [.own ⟨1, [], [ent], false, true, zeroD⟩, .allow 1,
-   .own ⟨2, [], [ent], false, true, zeroD⟩, .discard 2, .own ⟨3, [], [ent], false, true, zeroD⟩,
-   .close, .open_ cfgW true, .allow 2, .own ⟨4, [], [ent], false, true, zeroD⟩, .allow 3]
+  [.own ⟨1, [], [ent], false, true⟩, .allow 1,
+   .own ⟨2, [], [ent], false, true⟩, .discard 2, .own ⟨3, [], [ent], false, true⟩,
+   .close, .open_ cfgW true, .allow 2, .own ⟨4, [], [ent], false, true⟩, .allow 3]
 
 def sF : St Digest := run toyHs zeroD (init toyHs cfgW true) opsW
 
